@@ -14,3 +14,4 @@ def check(ctx, prog):
     dispatch.rule_reinit(ctx, prog)
     optimize.rule_domain_source(ctx, prog)
     dispatch.rule_mode_arith(ctx, prog)
+    dispatch.rule_swallowed_raise(ctx, prog)
